@@ -5,7 +5,7 @@ import warnings
 import enc
 import terms
 from props.c01 import reason_kind
-from props.c03 import gen_doc_for_parts
+from props.c03 import gen_doc_for_parts, CAST_STRINGS
 
 import valida.casting as casting
 import valida.datapath as DP
@@ -132,3 +132,39 @@ def reference_validate(rules_sorted, doc):
         fails = [(q, v) for v, q in judged if not terms.sat_tree(rr["cond"], None, v)]
         out.append((bool(judged), not fails, fails))
     return out, cast_doc
+
+
+def cast_leaf(g):
+    """selected nodes for cast rules: castable and uncastable strings, and a few non-strings"""
+    r = g.r
+    return lambda: r.choice(CAST_STRINGS) if r.random() < 0.85 else g.atom()
+
+
+def gen_true_biased_tree(g, values, depth):
+    """a value-kind tree whose leaves are mostly true on the given node values (so that the verdict hinges on
+    the and / or / xor structure: e.g. an xor whose operands both hold)"""
+    r = g.r
+
+    def leaf():
+        v = r.choice(values) if values else 1
+        x = r.random()
+        if x < 0.3:
+            try:
+                hash(v)
+                return ("leaf", "Value", "equal_to", [v], {})
+            except TypeError:
+                return ("leaf", "Value", "equal_to", [v], {})
+        if x < 0.5:
+            return ("leaf", "Value", "is_instance", [type(v)], {}) if v is not None else ("leaf", "Value", "null", [], {})
+        if x < 0.65:
+            return ("leaf", "Value", "null", [], {})
+        if x < 0.8:
+            return ("leaf", "Value", "not_equal_to", ["__no_such_value__"], {})
+        if x < 0.9:
+            return ("leaf", "Value", "truthy", [], {})
+        return ("leaf", "ValueDataType", "equal_to", [type(v)], {}) if v is not None else ("leaf", "Value", "falsy", [], {})
+    def tree(d):
+        if d <= 0 or r.random() < 0.3:
+            return leaf()
+        return ("bin", r.choice(["and", "or", "xor", "xor"]), tree(d - 1), tree(d - 1))
+    return tree(depth)
